@@ -41,4 +41,16 @@ example : MtimeDeterminesContent [⟨1, 10⟩, ⟨2, 20⟩, ⟨1, 10⟩, ⟨1, 3
   simp at ha hb
   rcases ha with rfl | rfl | rfl | rfl <;> rcases hb with rfl | rfl | rfl | rfl <;> simp_all
 
+/-- `names_never_share_an_entry`: the in-memory compiler map is keyed so that two requests using one entry were made under the same
+    file name: driver names that are links to one binary (`gcc` / `g++`, `clang` / `clang++`) never inherit each other's detected
+    compiler, for every file system (`nameOf`, canonical paths arbitrary) -/
+theorem names_never_share_an_entry (nameOf : Nat → Nat) (r₁ r₂ : MemoM.Req) (h : MemoM.memoKey nameOf r₁ = MemoM.memoKey nameOf r₂) :
+    nameOf r₁.self = nameOf r₂.self := MemoM.names_never_share_an_entry nameOf r₁ r₂ h
+
+/-- the rule "always canonicalize" (seeded change S-C01-3) makes `gcc` and `g++` share an entry; the real rule keeps them apart -/
+theorem always_canonicalize_collapses_witness :
+    let nameOf : Nat → Nat := fun p => if p = 1 then 10 else if p = 2 then 20 else 30
+    (⟨1, 3⟩ : MemoM.Req).canon = (⟨2, 3⟩ : MemoM.Req).canon ∧ MemoM.memoKey nameOf ⟨1, 3⟩ = 1 ∧ MemoM.memoKey nameOf ⟨2, 3⟩ = 2 :=
+  MemoM.always_canonicalize_collapses_witness
+
 end C12
